@@ -84,6 +84,8 @@ type c03Scenario struct {
 	Cycles     int                     `json:"cycles"` // the same client runs the session again after reconnecting (0/1 = once)
 	// the application lowers Config().Timeout on the live client to this many milliseconds (0: leaves the default)
 	TimeoutMS int `json:"timeout_ms"`
+	// the socket's Close reports an error at teardown (it is closed all the same)
+	CloseFails bool `json:"close_fails"`
 }
 
 // c03Panic is what a handler of kind 3 panics with; the application's Config.Recover callback does some
@@ -153,6 +155,7 @@ func genC03(t *rapid.T) *c03Scenario {
 	sc.WelcomeNew = rapid.Bool().Draw(t, "welcome_new")
 	sc.Cycles = rapid.SampledFrom([]int{1, 1, 2}).Draw(t, "cycles")
 	sc.TimeoutMS = rapid.SampledFrom([]int{0, 0, 1, 3}).Draw(t, "timeout_ms")
+	sc.CloseFails = rapid.IntRange(0, 3).Draw(t, "close_fails") == 0
 	return sc
 }
 
@@ -162,7 +165,9 @@ func c03Wire(verb string, seq int, long bool, nick string) string {
 	}
 	pad := ""
 	if long {
-		pad = " " + strings.Repeat("p", 5000+(seq%4)*5000) // 5000 .. 20000 bytes: beyond one and two read buffers
+		// 5000 .. 20000 bytes, beyond one and two read buffers, made of blank-separated tokens: whatever
+		// fragment of it might wrongly be taken for a line of its own parses as an event named "7"
+		pad = " " + strings.Repeat("7 ", 2500+(seq%4)*2500) + "7"
 	}
 	return fmt.Sprintf(":src!u@h %s tgt :%d%s", verb, seq, pad)
 }
@@ -218,6 +223,9 @@ func runC03(sc *c03Scenario) *Violation {
 			panic(e)
 		}
 	}
+	tc.C.HandleFunc("7", func(c *client.Conn, l *client.Line) {
+		curLog.Load().add(true, -7, "PHANTOM", l.Raw[:min(len(l.Raw), 40)])
+	})
 	wseq := -1
 	for i, v := range sc.Verbs {
 		if v == "001" {
@@ -267,6 +275,9 @@ func runC03Cycle(sc *c03Scenario, tc *testClient, curLog *atomic.Pointer[hLog], 
 	}
 	log := curLog.Load()
 	conn := tc.conn()
+	if sc.CloseFails {
+		conn.FailClose(errors.New("close: broken pipe"))
+	}
 	total := len(sc.Verbs)
 	acked := total - sc.Unread
 	if acked < 0 {
@@ -321,6 +332,9 @@ func runC03Cycle(sc *c03Scenario, tc *testClient, curLog *atomic.Pointer[hLog], 
 	lastEnterSeq := 0
 	var discTick int64 = -1
 	for _, e := range ev {
+		if e.Handler == "PHANTOM" {
+			return violationf("C03", "an event named \"7\" was dispatched (%q...): no such line was sent - a piece of a long line was taken for a line of its own", e.Note)
+		}
 		if e.Handler == "DISCONNECTED" {
 			if discTick < 0 {
 				discTick = e.Tick // the first one counts: nothing may run after it
@@ -446,6 +460,9 @@ func (sc *c03Scenario) classes() (cls []string, nontrivial bool) {
 	}
 	if sc.TimeoutMS > 0 {
 		cls = append(cls, "runtime_timeout")
+	}
+	if sc.CloseFails {
+		cls = append(cls, "socket_close_reports_error")
 	}
 	cls = append(cls, seg, "cause="+sc.Cause, fmt.Sprintf("gomaxprocs=%d", sc.Procs))
 	return cls, len(sc.Verbs) >= 2 && multi
